@@ -101,6 +101,7 @@ fn main() {
     let rc = match args[1].as_str() {
         "run" => cmd_run(&args[2..]),
         "fuzz" => fuzz::cmd_fuzz(&args[2..]),
+        "dfuzz" => fuzz::cmd_dfuzz(&args[2..]),
         "exhaust2" => fuzz::cmd_exhaust2(&args[2..]),
         "locality" => fuzz::cmd_locality(&args[2..]),
         "defrag" => defrag::cmd_defrag(&args[2..]),
